@@ -39,7 +39,8 @@ EXPLANATION = (
     "delivery (LineReceiver, IntNStringReceiver) - and the messages must be those of plain sequential delivery; LineReceiver must also "
     "survive a handler that calls dataReceived itself (_busyReceiving). Structurally, every receiver has consumed a message (offset / buffer / "
     "state) before the call-out that hands it out (intn/offset-advanced-before-callout, netstring/state-consumed-before-callout one helper "
-    "level deep, the LineReceiver split/swap rules). Evaluated but only reported as notes, being outside the statement or not holding today: "
+    "level deep, the LineReceiver split/swap rules), and no local derived from a buffer (cached length, offset, slice) is used after the buffer was "
+    "re-bound without being recomputed (stale/derived-value-after-rebinding, structural def-use). Evaluated but only reported as notes, being outside the statement or not holding today: "
     "handlers that call dataReceived or raise on the other receivers. IntNStringReceiver with pauseProducing() + immediate resumeProducing() "
     "inside the handler used to duplicate messages (finding F16p, fixed in 5bfefbe; armed as intn/pause-resume-inside-handler). "
     "Not decided: invariance for all streams "
@@ -77,6 +78,8 @@ RULE_KINDS = {
     "intn/pause-honoured/evaluated": "bounded",
     "netstring/digit-precheck": "bounded", "netstring/length-syntax": "bounded", "netstring/writer-format": "bounded", "netstring/payload-without-comma": "bounded",
     "netstring/length-value": "bounded",
+    # def-use on the CFG: a local derived from another local is not used after that local was re-bound without being recomputed
+    "stale/": "structural",
 }
 ASSUMPTIONS = [
     "lineReceived/rawDataReceived/stringReceived may re-enter dataReceived, setLineMode/setRawMode, pause/resume only",
@@ -1096,7 +1099,11 @@ def _deliver_hostile(mod, cls_name, chunks, mode, rest=b""):
             vm.call_method(o, "dataReceived", c)
         except _NativeRaise as e:
             if not (mode == "raise" and isinstance(e.native, RuntimeError)):
-                raise
+                got.append(("dataReceived raised", type(e.native).__name__))
+                return got
+        except VMRaise as e:
+            got.append(("dataReceived raised", e.exc.names()[0]))
+            return got
         if o.attrs.get("paused"):
             vm.call_method(o, "resumeProducing")
     if mode == "raise":
@@ -1173,6 +1180,52 @@ def _reentrancy(ctx):
                       "the payload bytes are not removed from _remainingData before stringReceived runs", witness=g.describe(w))
 
 
+def _stale_derived(ctx):
+    """Structural: every quantity the parsing loop reads about a buffer (a cached length, an offset, a slice) is re-derived from the buffer
+    that is current at that point.  For each local V assigned from an expression that mentions another local X: a use of V that can be reached
+    from a re-binding of X without passing an assignment to V reads a value derived from the OLD X."""
+    for cls_name, meth in (("IntNStringReceiver", "dataReceived"), ("LineReceiver", "dataReceived"), ("LineOnlyReceiver", "dataReceived"),
+                           ("NetstringReceiver", "dataReceived"), ("NetstringReceiver", "_extractPayload"), ("NetstringReceiver", "_processLength")):
+        with ctx.section(f"stale derived values {cls_name}.{meth}"):
+            f = _F(ctx, B, f"{cls_name}.{meth}")
+            g = ctx.cfg(f)
+            q = Q + f"{cls_name}.{meth}"
+            defs = {}      # local name -> [(node id, rhs)]
+            for n in g.nodes:
+                if n.kind == "stmt" and g.reachable(n.id) and isinstance(n.ast, (ast.Assign, ast.AugAssign, ast.AnnAssign)):
+                    tg = n.ast.targets if isinstance(n.ast, ast.Assign) else [n.ast.target]
+                    for t in tg:
+                        for e in (t.elts if isinstance(t, (ast.Tuple, ast.List)) else [t]):
+                            if isinstance(e, ast.Name):
+                                defs.setdefault(e.id, []).append((n.id, n.ast.value))
+                elif n.kind == "for" and isinstance(n.ast.target, ast.Name):
+                    defs.setdefault(n.ast.target.id, []).append((n.id, n.ast.iter))
+            nchecked = 0
+            for v, vdefs in defs.items():
+                sources = set()
+                for _, rhs in vdefs:
+                    sources |= {x.id for x in ast.walk(rhs) if isinstance(x, ast.Name) and isinstance(x.ctx, ast.Load) and x.id in defs and x.id != v}
+                vdef_nodes = [n for n, _ in vdefs]
+                uses = [n.id for n in g.nodes if n.ast is not None and g.reachable(n.id) and n.kind in ("stmt", "test", "for")
+                        and any(isinstance(x, ast.Name) and x.id == v and isinstance(x.ctx, ast.Load) for x in walk_local(n.ast if n.kind != "for" else n.ast.iter))]
+                for x in sorted(sources):
+                    rebinds = [n for n, _ in defs[x]]
+                    if len(rebinds) < 2:
+                        continue              # X is bound once: V can never outlive it
+                    nchecked += 1
+                    for r in rebinds:
+                        if r in vdef_nodes:
+                            continue          # X and V are assigned by the same statement
+                        starts = [s_ for s_ in succ_of(g, r, None) + succ_of(g, r, "iter") if s_ not in vdef_nodes]
+                        w = g.path(starts, [u for u in uses if u != r], avoid=vdef_nodes, edge_ok=lambda a, b, l: l != "exc") if starts else None
+                        # a use that is itself the statement re-deriving V from the new X is fine (covered by avoid); the path must not start in r's own use
+                        ctx.check(w is None, "stale/derived-value-after-rebinding", ctx.construct(q, g.node(r).ast) + f" | {v} derived from {x}",
+                                  f"'{v}' is computed from '{x}', '{x}' is re-bound here, and '{v}' is then used without being recomputed: the parser works with "
+                                  f"a length / offset / slice of the PREVIOUS buffer (struct.error, a truncated or a duplicated message)", witness=g.describe(w))
+            ctx.extra.setdefault("stale_pairs_checked", 0)
+            ctx.extra["stale_pairs_checked"] += nchecked
+
+
 def g_before(g, x, others):
     """x happens before every node of ``others`` that is reachable together with it."""
     return all(g.path([o], [x], strict=True, edge_ok=lambda a, b, l: l != "exc") is None for o in others)
@@ -1184,6 +1237,7 @@ def check(ctx):
             fn(ctx)
     _segmentation(ctx)
     _reentrancy(ctx)
+    _stale_derived(ctx)
 
 
 _LO = "        if len(self._buffer) >= (self.MAX_LENGTH + len(self.delimiter)):\n            return self.lineLengthExceeded(self._buffer)\n"
@@ -1271,6 +1325,11 @@ MUTANTS = [
            "                # and has consumed part of the buffer: carry on from where it\n                # stopped instead of delivering those strings a second time.\n"
            "                alldata = self._unprocessed\n                currentOffset = self._compatibilityOffset\n\n", "",
            expect_rule="intn/pause-resume-inside-handler"),
+    Mutant("intn-cached-buffer-length-not-refreshed-after-nested-run", B, "        self._unprocessed = alldata\n\n        while len(alldata) >= (currentOffset + prefixLength) and not self.paused:",
+           "        self._unprocessed = alldata\n        available = len(alldata)\n\n        while available >= (currentOffset + prefixLength) and not self.paused:",
+           more=[(B, "            if len(alldata) < messageEnd:\n                break\n", "            if available < messageEnd:\n                break\n"),
+                 (B, "                alldata = self.__dict__.pop(\"recvd\")\n", "                alldata = self.__dict__.pop(\"recvd\")\n                available = len(alldata)\n")],
+           expect_rule="stale/derived-value-after-rebinding"),
     Mutant("line-only-new-before-old", B, "        lines = (self._buffer + data).split(self.delimiter)", "        lines = (data + self._buffer).split(self.delimiter)",
            expect_rule="line-only/segmentation-invariant"),
 ]
@@ -1302,5 +1361,11 @@ SILENT = [
            "        pieces = (self._buffer + data).split(self.delimiter)\n        self._buffer = pieces[-1]\n        for line in pieces[:-1]:\n"),
     Silent("intn-send-length-computed-once", B, "        self.transport.write(pack(self.structFormat, len(string)) + string)",
            "        size = len(string)\n        self.transport.write(pack(self.structFormat, size) + string)"),
+    Silent("intn-cached-buffer-length-refreshed-at-every-rebinding", B, "        self._unprocessed = alldata\n\n        while len(alldata) >= (currentOffset + prefixLength) and not self.paused:",
+           "        self._unprocessed = alldata\n        available = len(alldata)\n\n        while available >= (currentOffset + prefixLength) and not self.paused:",
+           more=[(B, "            if len(alldata) < messageEnd:\n                break\n", "            if available < messageEnd:\n                break\n"),
+                 (B, "                alldata = self.__dict__.pop(\"recvd\")\n", "                alldata = self.__dict__.pop(\"recvd\")\n                available = len(alldata)\n"),
+                 (B, "                alldata = self._unprocessed\n                currentOffset = self._compatibilityOffset\n",
+                  "                alldata = self._unprocessed\n                available = len(alldata)\n                currentOffset = self._compatibilityOffset\n")]),
     Silent("netstring-buffer-append-spelled-out", B, "        self._remainingData += data\n        while self._remainingData:", "        self._remainingData = self._remainingData + data\n        while self._remainingData:"),
 ]
